@@ -162,11 +162,25 @@ def real_parse(ctx, path: Path, root: Path | None = None):
         return {"cls": type(e).__name__, "file": fname(e.position.file if e.position else None),
                 "p": _pos(e.position), "msg": str(getattr(e, "description", ""))[:200]}
 
+    def bindings(refs):
+        out = []
+        for t in refs or []:
+            if t.type_def is not None and t.name != "<function>":
+                out.append({"file": fname(t.position.file), "p": _pos(t.position),
+                            "key": ".".join([str(x) for x in t.type_def.namespace] + [str(t.type_def.name)])})
+        return out
+
+    def decl_names(defs):
+        from pydjinni.parser.ast import Function
+        return sorted(".".join([str(x) for x in d.namespace] + [str(d.name)]) for d in defs or []
+                      if not (isinstance(d, Function) and d.anonymous))
+
     try:
         res = ctx.parse(path)
-        return {"kind": "ok", "ast": [dump_node(n) for n in res.ast], "result": res}
+        return {"kind": "ok", "ast": [dump_node(n) for n in res.ast], "result": res, "bindings": bindings(res.refs), "decls": decl_names(res.defs)}
     except ApplicationExceptionList as e:
-        return {"kind": "diags", "diags": [diag(i) for i in e.items],
+        return {"kind": "diags", "diags": [diag(i) for i in e.items], "bindings": bindings(getattr(e, "type_refs", [])),
+                "decls": decl_names(getattr(e, "type_decls", [])),
                 "ast": [dump_node(n) for n in getattr(e, "ast", []) if n is not None]}
     except FileNotFoundException as e:
         return {"kind": "file-not-found", "msg": str(e.description)}
@@ -281,6 +295,20 @@ class Gen:
         order = list(range(n))
         r.shuffle(order)
         return [decls[i] for i in order]
+
+    def program_with_visible(self, visible, prefix="v_"):
+        """like `program`, but references may also name the declarations in `visible` (imported files)"""
+        r = self.r
+        n = r.randint(1, self.max_decls)
+        own = []
+        for i in range(n):
+            k = r.choice(['enum', 'flags', 'record', 'record', 'interface', 'interface', 'function', 'error'])
+            own.append({'k': k, 'name': f'{prefix}u{i}', 'ns': r.choice(self.NSS)})
+        self.decls = own + [dict(d) for d in visible]
+        for d in own:
+            self.fill(d)
+        r.shuffle(own)
+        return own
 
     # -- types ---------------------------------------------------------------------------------
     def spell(self, target):
@@ -715,4 +743,140 @@ def flatten_decls(ast):
             out += flatten_decls(n["children"])
         else:
             out.append(n)
+    return out
+
+
+# ---------------------------------------------------------------------------------------------
+# multi-file sandbox: the same virtual file system for the implementation and the model
+# ---------------------------------------------------------------------------------------------
+
+def ext_yaml(defs: list[dict]) -> tuple[str, list[dict]]:
+    """YAML text of an external-types file and the model's view of it (key, prim, arity, position
+    of the name as `Resolver.load_external` computes it)."""
+    docs = []
+    for d in defs:
+        lines = [f"name: {d['name']}"]
+        if d.get('ns'):
+            lines.append(f"namespace: {'.'.join(d['ns'])}")
+        lines.append(f"primitive: {d['prim']}")
+        if d.get('arity'):
+            lines.append("params: [" + ", ".join("TUV"[i] for i in range(d['arity'])) + "]")
+        docs.append("\n".join(lines) + "\n")
+    text = "---\n".join(docs)
+    import re
+    out = []
+    for d in defs:
+        m = re.compile(r'^name: *(' + d['name'] + ')$', re.MULTILINE).search(text)
+        line = text[:m.start()].count('\n') + 1
+        start = m.start(1) - text.rfind('\n', 0, m.start()) - 1
+        end = m.end(1) - text.rfind('\n', 0, m.end()) - 1
+        out.append({"key": ".".join(d.get('ns', []) + [d['name']]), "prim": d['prim'], "arity": d.get('arity', 0), "pos": [line, start, line, end]})
+    return text, out
+
+
+class Sandbox:
+    """files: virtual absolute path ('/w/a.djinni') -> IDL text | {'ext': [defs]} | {'raw': text} (an invalid YAML file)"""
+
+    def __init__(self, base: Path):
+        self.base = base
+        self.n = 0
+
+    def materialise(self, files: dict) -> tuple[Path, dict]:
+        import shutil
+        self.n += 1
+        root = self.base / f"s{self.n % 4}"
+        shutil.rmtree(root, ignore_errors=True)
+        root.mkdir(parents=True)
+        model_files = {}
+        for vp, v in files.items():
+            p = root / vp.lstrip("/")
+            p.parent.mkdir(parents=True, exist_ok=True)
+            if isinstance(v, str):
+                p.write_text(v, newline="")
+                model_files[vp] = v
+            elif "ext" in v:
+                text, mdefs = ext_yaml(v["ext"])
+                p.write_text(text)
+                model_files[vp] = {"ext": mdefs}
+            else:
+                p.write_text(v["raw"])
+                model_files[vp] = {"bad": True}
+        return root, model_files
+
+    def run(self, files: dict, root_file: str, cwd: str = "/w", include_dirs=(), default_deriving=(), timeout=None):
+        """-> (impl outcome, model request)"""
+        root, model_files = self.materialise(files)
+        real_cwd = root / cwd.lstrip("/")
+        real_cwd.mkdir(parents=True, exist_ok=True)
+        old = os.getcwd()
+        os.chdir(real_cwd)
+        try:
+            ctx = make_context(default_deriving=default_deriving, include_dirs=include_dirs)
+            impl = real_parse(ctx, root / root_file.lstrip("/"), root)
+        finally:
+            os.chdir(old)
+        impl.pop("result", None)
+        req = front_request(model_files, root_file, cwd=cwd, include_dirs=include_dirs, default_deriving=default_deriving)
+        return impl, req
+
+
+def model_outcome(m: dict):
+    """canonical form of a `c05.front` answer"""
+    if "error" in m:
+        raise RuntimeError(f"driver error: {m}")
+    return canon_outcome(m)
+
+
+# ---------------------------------------------------------------------------------------------
+# parallel execution of the real front end (worker processes, per-input wall-clock bound)
+# ---------------------------------------------------------------------------------------------
+
+class _Hang(BaseException):
+    pass
+
+
+def _worker(args):
+    import signal
+    base, idx, chunk, per_input_timeout = args
+    sb = Sandbox(Path(base) / f"w{idx}")
+    out = []
+
+    def on_alarm(*_):
+        raise _Hang()
+
+    signal.signal(signal.SIGALRM, on_alarm)
+    for case in chunk:
+        files, root = case["files"], case["root"]
+        kw = {k: case[k] for k in ("cwd", "include_dirs", "default_deriving") if k in case}
+        signal.alarm(per_input_timeout)
+        try:
+            impl, req = sb.run(files, root, **kw)
+        except _Hang:
+            os.chdir("/")
+            _, model_files = sb.materialise(files)
+            impl = {"kind": "hang", "timeout_s": per_input_timeout}
+            req = front_request(model_files, root, cwd=kw.get("cwd", "/w"), include_dirs=kw.get("include_dirs", ()),
+                                default_deriving=kw.get("default_deriving", ()))
+        finally:
+            signal.alarm(0)
+        out.append((impl, req))
+    return out
+
+
+def run_many(base: Path, cases: list[dict], per_input_timeout: int = 10, workers: int = 12):
+    """cases: [{'files':…, 'root':…, 'cwd'?, 'include_dirs'?, 'default_deriving'?}] -> [(impl, model request)]"""
+    import multiprocessing as mp
+    if not cases:
+        return []
+    builtin_registry()  # warm the cache before forking
+    target_keys()
+    workers = max(1, min(workers, len(cases) // 8 or 1))
+    chunks = [cases[i::workers] for i in range(workers)]
+    ctxm = mp.get_context("fork")
+    with ctxm.Pool(workers) as pool:
+        res = pool.map(_worker, [(str(base), i, ch, per_input_timeout) for i, ch in enumerate(chunks)])
+    out = [None] * len(cases)
+    for w, r in enumerate(res):
+        for j, x in enumerate(r):
+            out[w + j * workers] = x
     return out
